@@ -15,6 +15,17 @@ for p in sorted(glob.glob(os.path.join(VERIF, "seeded", "*", "meta.json"))):
         viol = v["violation"][0] if v["violation"] else ""
         how = "%s%s" % (k, " (no-failing-input-found)" if "no-failing-input-found" in viol else " (with replay)")
         ff = [re.sub(r"^\[\S+\s+\S+\]\s*", "", x)[:110] for x in v.get("first_failures", [])[:2]]
+        # the replay written by the check lists only failures that are NOT known findings: prefer it
+        rp = os.path.join(d, "replay-%s.json" % k.replace("/", "-"))
+        if os.path.exists(rp):
+            try:
+                rj = json.load(open(rp))
+                real = [str(x.get("what", ""))[:110] for x in rj.get("failing_inputs", [])[:2]]
+                real += [str(x)[:110] for x in (rj.get("no_longer_checks") or [])[:1]]
+                if real:
+                    ff = real
+            except Exception:
+                pass
         how += ": " + " / ".join(ff)
     first = (m.get("needs") or "").strip().splitlines()
     title = next((l.strip("# ").strip() for l in first if l.strip()), "")
